@@ -93,6 +93,7 @@ type Spec struct {
 	PanicStopped  map[int]bool
 	Children      []*Spec // spawned while handling Started
 	SlowStarted   bool    // yield a few times inside Started
+	SlowStopped   int     // yield this many times inside Stopped (a shutdown that takes a while)
 }
 
 func (s *Spec) FullID() string { return s.Kind + "/" + s.ID }
@@ -465,6 +466,9 @@ func (s *scripted) Receive(c *actor.Context) {
 			if c.Engine().Registry.GetPID(kindOf(ch.FullID()), idOf(ch.FullID())) != nil {
 				d.ChildrenStillRegistered = append(d.ChildrenStillRegistered, ch.FullID())
 			}
+		}
+		for i := 0; i < spec.SlowStopped; i++ {
+			simrt.Yield(simrt.OpUser)
 		}
 		if spec.PanicStopped[s.inc] {
 			simrt.Fault("actor-crash-in-Stopped")
